@@ -229,7 +229,9 @@ class Network:
     def get_total_discovery_value(self):
         total = 0
         for host in self.hosts.values():
-            total += host.discovery_value
+            # a negative discovery value can be avoided by not discovering
+            # the host, so it must not lower the upper bound
+            total += max(0, host.discovery_value)
         return total
 
     def get_minimal_hops(self):
